@@ -84,13 +84,17 @@ func gaps(thorough bool) []gap {
 				out = append(out, gap{{op: "setmax", v: v}, {op: "settings", v: l}})
 			}
 		}
-		// three changes with the minimum in the middle
-		for _, a := range sizes {
-			for _, b := range sizes {
-				for _, c := range sizes {
-					if b < a && b < c {
-						out = append(out, gap{{op: "setmax", v: a}, {op: "setmax", v: b}, {op: "setmax", v: c}})
-					}
+	}
+	// three changes between two blocks: the encoder has to signal the smallest size since its last update and the
+	// final one. Quick: the middle value is the extreme (a valley or a peak); thorough: every triple.
+	for _, a := range sizes {
+		for _, b := range sizes {
+			for _, c := range sizes {
+				if a == b || b == c {
+					continue
+				}
+				if thorough || (b < a && b < c) || (b > a && b > c) {
+					out = append(out, gap{{op: "setmax", v: a}, {op: "setmax", v: b}, {op: "setmax", v: c}})
 				}
 			}
 		}
